@@ -173,8 +173,9 @@ CHECKS = {
                 "per data pixel (so per-pixel sub-size maps are handled), with exact slot memory / distinct-pixel count / lengths - hence it encodes the same matrix; Delaunay weights are, for vertex k, the area of (point, the two OTHER vertices) "
                 "divided by the sum of exactly those three areas, applied iff a containing simplex exists (second slot != -1, source pixel 0 is a valid vertex) and the single nearest vertex gets weight 1 outside the hull; rectangular mappers "
                 "index the mesh with the mesh's own (shape_native, pixel_scales, origin), weight 1, size 1; dense and unique forms are wired to the same mapper tables; sub_fraction = 1/sub_size^2; both mesh classes hand MapperGrids the "
-                "very relocated data grid their mesh was built from (straight-line value identity). Not decided: non-negativity / row sums as numbers, "
-                "scipy's find_simplex containment, neighbour-list symmetry.",
+                "very relocated data grid their mesh was built from (straight-line value identity); rectangular neighbour lists are exactly the 4-connectivity of the R x C grid (each of the six class helpers writes, for pixel p = row*C + col of its class, "
+                "exactly the in-frame members of p-C, p-1, p+1, p+C and their number; the classes partition the grid; hence the lists are symmetric) and Delaunay lists are scipy's vertex adjacency copied row by row. Not decided: non-negativity / row sums as numbers, "
+                "scipy's find_simplex containment, Voronoi neighbours (external library).",
         "note": "Trusted: Python ast, E1 resolver, numpy fancy indexing A[idx][k] = A[idx[k]], scipy.spatial.Delaunay.",
         "technique": "static analysis: abstract evaluation of kernels to polynomial normal forms + canonical-form equality (sibling agreement between the dense and unique encodings); running-offset typestate; call-site wiring",
     },
